@@ -345,6 +345,10 @@ func unmarshalVarchar(info TypeInfo, data []byte, value interface{}) error {
 		return nil
 	case *[]byte:
 		if data != nil {
+			if *v == nil {
+				// keep an empty value distinct from null (nil)
+				*v = make([]byte, 0, len(data))
+			}
 			*v = append((*v)[:0], data...)
 		} else {
 			*v = nil
